@@ -283,7 +283,7 @@ def ref_rdm(data, cols, events, method):
     return np.array(out)
 
 
-def check_rdms(ctx, data, centers, neighbors, events, method, containers=0):
+def check_rdms(ctx, data, centers, neighbors, events, method, containers=0, redo=True):
     from rsatoolbox.util.searchlight import get_searchlight_RDMs
     c_arg, n_arg = centers, neighbors
     if containers % 3 == 1:
@@ -326,6 +326,22 @@ def check_rdms(ctx, data, centers, neighbors, events, method, containers=0):
     if n > 1000:
         ctx.probe('chunked_branch')
     ctx.nontrivial = True
+    if redo and isinstance(events, np.ndarray) and len(events) > 1 and n <= 200:
+        # a permutation test: the caller re-labels its own events array in place and asks again -- the RDMs follow the
+        # labels as they are now
+        before = events.copy()
+        try:
+            events[:] = np.roll(before, 1)
+        except ValueError:
+            return sl
+        if not np.array_equal(events, before):
+            ctx.probe('events_relabelled_in_place')
+            again = check_rdms(ctx, data, centers, neighbors, events, method, containers=containers, redo=False)
+            events[:] = before
+            if again is None:
+                return None
+        else:
+            events[:] = before
     return sl
 
 
